@@ -19,10 +19,14 @@ BUDGET = {"quick": dict(examples=120000, seconds=55),
           "thorough": dict(examples=3000000, seconds=420)}
 RULE = ("Hypothesis-generated op trees (top-level ops and ops executed from inside event actions) on the "
         "real event queue; after every op the model (array of pending events, min by time asc / priority "
-        "desc / handle asc) is compared with queue_count, is_scheduled/time/priority of every handle ever "
+        "desc / order of issue) is compared with queue_count, is_scheduled/time/priority of every handle ever "
         "issued, event_current, and at each action the invoked (action, subject, object), cmb_time() and "
         "event_current. Non-trivial = a tie on time+priority, or a mutation from inside an action, or a "
-        "growth step, or a pattern matching >= 2 pending events. distinct = SHA-1 of the case text.")
+        "growth step, or a pattern matching >= 2 pending events. About one case in eight is a simulation scenario "
+        "(processes holding, waiting for user events, timers, interrupts: the wake-up events the library schedules "
+        "itself), judged for the clock (never decreases, equals the scheduled time inside a user event) and for user "
+        "events running exactly once; non-trivial there = somebody waited for an event, or a timer / interrupt was "
+        "used. distinct = SHA-1 of the case text.")
 ASSUMPTIONS = ["reference model in harness/m_event.c is correct",
                "times are never NaN and never below the clock; reschedule/reprioritise/time/priority only "
                "on pending handles (documented preconditions)",
@@ -75,7 +79,13 @@ def _op(level):
 
 def strategy(tier):
     start = st.sampled_from([0.0, 0.0, 0.0, -5.0, -1e9, 1e15])
-    return st.tuples(start, st.lists(_op(0), min_size=1, max_size=30))
+    ev = st.tuples(start, st.lists(_op(0), min_size=1, max_size=30))
+    # about one case in eight: the event queue as the simulation engine drives it - processes holding, waiting
+    # for user events, timers, interrupts (the library schedules wake-up events itself); judged for the clock
+    # (never decreases, equals the scheduled time inside a user event) and for user events running once
+    from .. import simgen, simprop
+    sim = simprop.trusting(st.one_of(simgen.scenario("timing"), simgen.scenario("timing"), simgen.coincide()))
+    return st.one_of(*([ev] * 7 + [sim]))
 
 
 def _emit(lines, o, depth):
@@ -104,6 +114,8 @@ def _emit(lines, o, depth):
 
 
 def serialize(case):
+    if isinstance(case, str):
+        return case
     start, ops = case
     lines = ["mode event", "start %s" % fhex(start)]
     for o in ops:
@@ -120,7 +132,13 @@ def _category(msg):
     return squash(m, 40)
 
 
+SIM_NONTRIVIAL = {"blocked-wait_ev", "nonsuccess-wait_ev", "timer", "interrupt"}
+
+
 def evaluate(text, ctx):
+    if text.startswith("mode sim"):
+        from .. import simprop
+        return simprop.evaluate_family(text, ctx, "C01", SIM_NONTRIVIAL)
     res = ctx.run(text, "asan")
     if res.parse_error:
         raise RuntimeError("generator produced an unparsable case:\n" + text)
